@@ -399,6 +399,12 @@ func equals(t types.Type, x, y Val) Val {
 			return false
 		}
 		return equals(x.T, x.V, y.V)
+	case Slice:
+		ys, _ := y.(Slice)
+		if x == nil || ys == nil {
+			return x == nil && ys == nil
+		}
+		panic("comparison of two non-nil slices")
 	case *Closure:
 		if yc, ok := y.(*Closure); ok {
 			return x == yc
